@@ -10,7 +10,7 @@ for d in sorted(os.listdir(os.path.join(V, "seeded"))):
     m = json.load(open(p))
     c = m.get("check_result", {})
     title = open(os.path.join(V, "seeded", d, "README.md")).readline().strip().lstrip("# ").strip()
-    title = re.sub(r"^C\d\d\s*/?\s*variant [abc]\s*[-—–:]\s*", "", title)
+    title = re.sub(r"^C\d\d\s*/?\s*variant [a-e]\s*[-—–:]\s*", "", title)
     how = "failing input" if c.get("failing_input_found") else ("obligation only (" + ", ".join(c.get("failed_obligation_kinds", [])) + ")" if c.get("detected") else "—")
     rows.append("| %s | %s | %s | %s |" % (d, title[:120].replace("|", "/"), "yes" if c.get("detected") else "**no**", how))
 tab = "<!-- SEED-TABLE-BEGIN -->\n| change | what it does | detected | how |\n|---|---|---|---|\n" + "\n".join(rows) + "\n<!-- SEED-TABLE-END -->"
